@@ -178,8 +178,11 @@ impl BuildJob<'_> {
             sf.save(&mut ptx)?;
             // Fall through and treat it the same as a static file.
         }
-        if Path::new(&t).exists()
-            && !Path::new(&t).join(".").is_dir()
+        // (lstat, not stat: a symbolic link the user made is a file of theirs whatever it
+        // points to.  Following it, a link to one of their directories passed for "a
+        // directory, let the rule run", and a dangling one for "nothing there": in both
+        // cases the rule's output was renamed over the user's link.)
+        if fs::symlink_metadata(Path::new(&t)).map_or(false, |m| !m.is_dir())
             && (sf.is_override || !sf.is_generated())
         {
             // an existing source file that was not generated by us.
